@@ -550,7 +550,8 @@ pub fn cases(tier: Tier) -> Result<Vec<Case>, String> {
 
 pub fn run(tier: Tier, _part: bool) -> i32 {
     let mut rep = Report::new("C12", tier, "fault_enumeration");
-    let cs = match cases(tier) {
+    // cheap check: both tiers run the thorough case list
+    let cs = match cases(Tier::Thorough) {
         Ok(c) => c,
         Err(e) => {
             rep.machinery(e);
@@ -575,6 +576,7 @@ pub fn run(tier: Tier, _part: bool) -> i32 {
     }
     rep.set("evaluations", json!(n));
     rep.set("distinct_nontrivial", json!(outcomes.len()));
+    rep.set("tiers", json!("the quick tier runs the thorough tier's cases as well (the whole check takes about a second)"));
     rep.set("rule", json!("case = (message of 1..8 and 12 packets [1,2,4 quick], with/without sender+region, 0/1 completed message before, crash index k = every transport system call boundary of that send 0..=N [N measured by a dry run: socketpair, sendmsg, each send, each close], 0/1 surviving sender handle in another process, observer in {blocking recv where a result is due, try_recv, try_recv_timeout, receiver set, router callback, receiver already blocked in recv while the sender dies}); distinct_nontrivial = distinct (case, observation log) outcomes that passed"));
     rep.set("exhaustive", json!(true));
     rep.sample(serde_json::to_value(&cs[cs.len() / 2]).unwrap());
